@@ -2,6 +2,19 @@
 (* C14 trace validation: every connect / disconnect / emit / handler call / collection   *)
 (* recorded from the real urwid.signals is replayed on the abstract signal state of       *)
 (* SignalsOps and each finished emit is judged by the same contract (FirstBroken).        *)
+(*                                                                                        *)
+(* Events (recorded by vf/props/c14.py):                                                  *)
+(*   connect            s n h ws us ut k exc   ws = weak-argument ids, us = CONTENT of the *)
+(*                                             user-argument iterable when connect was    *)
+(*                                             called, ut = how it was handed over        *)
+(*   disconnect         s n h ws us ut exc     by arguments: names the descriptor <<h,ws,us>> *)
+(*   disconnect_by_key  s n k exc              k may be a key of a sender that is gone     *)
+(*   mutate             us                     the caller changed its own list: NOTHING happens *)
+(*   collect            w dead                 the application dropped weak argument w      *)
+(*   drop_sender        s dead_rc dead_gc kept the application dropped the sender in slot s *)
+(*                                             (holding `kept` of its keys); a fresh sender *)
+(*                                             takes the slot                               *)
+(*   emit_begin / call / emit_end / drop                                                  *)
 EXTENDS SignalsOps, Json, IOUtils
 
 Traces == JsonDeserialize(IOEnv.TRACE_FILE)
@@ -18,22 +31,22 @@ Init == /\ tid \in 1..Len(Traces)
         /\ conn = [p \in P |-> <<>>]
         /\ alive = {w \in 1..Traces[tid].nweak : TRUE}
         /\ stack = <<>>
-        /\ tag = <<>>          \* tag[k] = the user argument given when connection k was made (several connections may share it)
+        /\ tag = <<>>          \* tag[k] = the descriptor <<h, ws, us>> connection k was made with (several connections may share it)
         /\ ok = TRUE
         /\ why = "-"
 
 AllEntries == UNION {{conn[p][j] : j \in 1..Len(conn[p])} : p \in P}
-KilledKeys(w) == {e.k : e \in {e \in AllEntries : e.w = w}}
-\* A call is identified by the user argument u it received.  Connections made with identical arguments (same callback,
-\* weak and user arguments) share u and cannot be told apart by their calls, so a frame records the TAGS it called and the
-\* contract of a finished emit is evaluated per tag (FirstBrokenT): any attribution of calls to connections that satisfies
-\* the property is accepted, none is invented.
-TagOf(k) == IF k \in 1..Len(tag) THEN tag[k] ELSE 0
-Lookup(f, u) ==     \* some connection carrying u that this emit may know (all of them have the same callback and weak argument)
-  LET p == <<f.s, f.n>>
-      later == SelectSeq(conn[p], LAMBDA e : e.k \notin Keys(f.snap))
-      cand == SelectSeq(f.snap \o later, LAMBDA e : TagOf(e.k) = u)
-  IN IF cand # <<>> THEN cand[1] ELSE Entry(0, 0, 0)
+KilledKeys(w) == {e.k : e \in {e \in AllEntries : HasWeak(e, w)}}
+\* A call is identified by the handler that ran and the weak and user arguments it received, i.e. by a DESCRIPTOR.
+\* Connections made with identical arguments (same callback, weak and user arguments) share it and cannot be told apart by
+\* their calls, so a frame records the descriptors it called and the contract of a finished emit is evaluated per descriptor
+\* (FirstBrokenT): any attribution of calls to connections that satisfies the property is accepted, none is invented.
+TagOf(k) == IF k \in 1..Len(tag) THEN tag[k] ELSE <<0, <<>>, <<>>>>
+NoEntry == Entry(0, 0, <<>>, <<>>)
+Reach(f) ==         \* the connections this emit may know, in connection order
+  f.snap \o SelectSeq(conn[<<f.s, f.n>>], LAMBDA e : e.k \notin Keys(f.snap))
+Lookup(f, d) ==     \* some connection with descriptor d that this emit may know
+  LET cand == SelectSeq(Reach(f), LAMBDA e : TagOf(e.k) = d) IN IF cand # <<>> THEN cand[1] ELSE NoEntry
 StayIdx(f) == {j \in 1..Len(f.snap) : f.snap[j].k \notin f.disc}
 StayWith(f, u) == {j \in StayIdx(f) : TagOf(f.snap[j].k) = u}
 OthersWith(f, u) == Cardinality({j \in 1..Len(f.snap) : TagOf(f.snap[j].k) = u /\ j \notin StayIdx(f)}) + Cardinality({k \in f.added : TagOf(k) = u})
@@ -52,10 +65,21 @@ FirstBrokenT(f, ret) ==
   ELSE IF \E j1, j2 \in Unamb(f) : j1 < j2 /\ ~(CallPos(f, j1) < CallPos(f, j2)) THEN "connection_order"
   ELSE IF ret # AnyTrue(f.rets) THEN "returns_any_true"
   ELSE "-"
-ExpectedArgs(e, emitid) == (IF e.w = 0 THEN <<>> ELSE <<1000 + e.w>>) \o <<TagOf(e.k)>> \o <<2000 + emitid>>
-\* first connection of (h, w, user argument u) in a handler list, as disconnect-by-arguments finds it; 0 if none
-FirstWith(seq, h, w, u) ==
-  LET m == SelectSeq(seq, LAMBDA e : e.h = h /\ e.w = w /\ TagOf(e.k) = u) IN IF m = <<>> THEN 0 ELSE m[1].k
+
+\* arguments as recorded: weak argument w is 1000+w, user arguments are 0..999, the emitted argument of emit id is 2000+id
+Map(seq, F(_)) == [j \in 1..Len(seq) |-> F(seq[j])]
+WeakPart(args) == Map(SelectSeq(args, LAMBDA a : a > 1000 /\ a < 2000), LAMBDA a : a - 1000)
+UserPart(args) == SelectSeq(args, LAMBDA a : a >= 0 /\ a < 1000)
+CallDesc(e) == <<e.h, WeakPart(e.args), UserPart(e.args)>>
+ExpectedArgs(ent, emitid) == Map(ent.ws, LAMBDA w : 1000 + w) \o ent.us \o <<2000 + emitid>>
+
+\* Which sentence a call breaks that matches no connection the emit may know (descriptor d, handler h)
+Unmatched(f, e, d) ==
+  LET mine == SelectSeq(Reach(f), LAMBDA c : c.h = e.h)              \* connections of this callback
+  IN IF d \in Range(tag) THEN "disconnected_handler_never_called"    \* made once with exactly these arguments, but not connected (here, now)
+     ELSE IF \E j \in 1..Len(mine) : mine[j].us = d[3] /\ ~WeakAlive(mine[j], alive) THEN "dead_weak_arg_never_called"
+     ELSE IF mine # <<>> THEN "weak_then_user_then_emit_args"        \* the callback is connected, but never with these arguments
+     ELSE "disconnected_handler_never_called"
 
 \* result: [conn, alive, stack, why]
 R(c, a, s, w) == [conn |-> c, alive |-> a, stack |-> s, why |-> w]
@@ -65,11 +89,11 @@ Judge(e) ==
          IF e.n \notin N
          THEN R(conn, alive, stack, IF e.exc = "NameError" THEN "-" ELSE "unregistered_name_rejected")
          ELSE IF e.exc # "" THEN R(conn, alive, stack, "connect_registered_name_accepted")
-         ELSE R([conn EXCEPT ![<<e.s, e.n>>] = Append(@, Entry(e.k, e.h, e.w))], alive, NoteAdd(stack, e.k), "-")   \* tag' below
-    [] e.t = "disconnect" ->    \* by arguments (h, w, user argument e.k): removes ONE connection, the first such; nothing if there is none
+         ELSE R([conn EXCEPT ![<<e.s, e.n>>] = Append(@, Entry(e.k, e.h, e.ws, e.us))], alive, NoteAdd(stack, e.k), "-")   \* tag' below
+    [] e.t = "disconnect" ->    \* by arguments: removes ONE connection, the first made with exactly <<h, ws, us>>; nothing if there is none
          IF e.n \notin N THEN R(conn, alive, stack, IF e.exc = "" THEN "-" ELSE "disconnect_unconnected_does_nothing") ELSE
          LET p == <<e.s, e.n>>
-             hit == FirstWith(conn[p], e.h, e.w, e.k)
+             hit == FirstMatch(conn[p], e.h, e.ws, e.us)
          IN IF e.exc # "" THEN R(conn, alive, stack, "disconnect_unconnected_does_nothing")
             ELSE IF hit # 0 THEN R([conn EXCEPT ![p] = RemoveKey(@, hit)], alive, NoteDisc(stack, {hit}), "-")
             ELSE R(conn, alive, stack, "-")
@@ -80,19 +104,28 @@ Judge(e) ==
          IN IF e.exc # "" THEN R(conn, alive, stack, "disconnect_unconnected_does_nothing")
             ELSE IF hit THEN R([conn EXCEPT ![p] = RemoveKey(@, e.k)], alive, NoteDisc(stack, {e.k}), "-")
             ELSE R(conn, alive, stack, "-")
+    [] e.t = "mutate" ->        \* the arguments of a connection are those given at connect time: the caller's later changes to its list change nothing
+         R(conn, alive, stack, "-")
     [] e.t = "collect" ->
-         R([p \in P |-> RemoveWeak(conn[p], e.w)], alive \ {e.w}, NoteDisc(stack, KilledKeys(e.w)), "-")
+         R([p \in P |-> RemoveWeak(conn[p], e.w)], alive \ {e.w}, NoteDisc(stack, KilledKeys(e.w)),
+           IF e.dead THEN "-" ELSE "machinery_keeps_weak_arg_alive")
+    [] e.t = "drop_sender" ->   \* the application let go of the sender (still holding e.kept keys): it must be freed there and then
+         IF stack # <<>> THEN R(conn, alive, stack, "drop_sender_during_emit") ELSE
+         R([p \in P |-> IF p[1] = e.s THEN <<>> ELSE conn[p]], alive, stack,
+           IF ~e.dead_gc THEN "machinery_keeps_sender_alive"
+           ELSE IF ~e.dead_rc THEN "machinery_keeps_sender_alive_until_cycle_gc" ELSE "-")
     [] e.t = "emit_begin" ->
          R(conn, alive, Append(stack, [NewFrame(e.s, e.n, conn[<<e.s, e.n>>]) EXCEPT !.i = e.id]), "-")
     [] e.t = "call" ->
          IF stack = <<>> THEN R(conn, alive, stack, "call_outside_emit") ELSE
          LET f == stack[Len(stack)]
-             ent == Lookup(f, e.k)
-             f1 == [f EXCEPT !.called = Append(@, e.k), !.rets = Append(@, e.ret)]
+             d == CallDesc(e)
+             ent == Lookup(f, d)
+             f1 == [f EXCEPT !.called = Append(@, d), !.rets = Append(@, e.ret)]
              stk == [stack EXCEPT ![Len(stack)] = f1]
          IN IF e.emit # f.i THEN R(conn, alive, stk, "call_belongs_to_current_emit")
-            ELSE IF ent.k = 0 THEN R(conn, alive, stk, "disconnected_handler_never_called")
-            ELSE IF ent.w # 0 /\ ent.w \notin alive THEN R(conn, alive, stk, "dead_weak_arg_never_called")
+            ELSE IF ent.k = 0 THEN R(conn, alive, stk, Unmatched(f, e, d))
+            ELSE IF ~WeakAlive(ent, alive) THEN R(conn, alive, stk, "dead_weak_arg_never_called")
             ELSE IF e.args # ExpectedArgs(ent, f.i) THEN R(conn, alive, stk, "weak_then_user_then_emit_args")
             ELSE R(conn, alive, stk, "-")
     [] e.t = "emit_end" ->
@@ -102,6 +135,7 @@ Judge(e) ==
               IF e.exc # "" THEN "emit_raised" ELSE IF e.id # f.i THEN "emit_nesting" ELSE FirstBrokenT(f, e.ret))
     [] e.t = "drop" ->
          R(conn, alive, stack, IF ~e.senders_dead THEN "machinery_keeps_sender_alive"
+                               ELSE IF ~e.senders_dead_rc THEN "machinery_keeps_sender_alive_until_cycle_gc"
                                ELSE IF ~e.weak_dead THEN "machinery_keeps_weak_arg_alive" ELSE "-")
     [] OTHER -> R(conn, alive, stack, "no_action")
 
@@ -113,7 +147,7 @@ Step == /\ ok
            IN /\ conn' = r.conn /\ alive' = r.alive /\ stack' = r.stack
               /\ why' = r.why /\ ok' = (r.why = "-")
               /\ tag' = LET e == Traces[tid].ev[l + 1]
-                         IN IF e.t = "connect" /\ e.exc = "" /\ e.n \in N THEN Append(tag, e.u) ELSE tag
+                         IN IF e.t = "connect" /\ e.exc = "" /\ e.n \in N THEN Append(tag, <<e.h, e.ws, e.us>>) ELSE tag
 Spec == Init /\ [][Step]_vars
 Report == ok \/ PrintT(<<"REJECT", tid, l, why>>)
 =============================================================================
